@@ -1,18 +1,12 @@
-use mc::gens::*;
-use minimum_redundancy::{BitsPerFragment, Coding};
-use std::collections::BTreeMap;
-fn depth(f: &[u32], quad: bool) -> u32 {
-    let m: BTreeMap<usize, usize> = f.iter().enumerate().map(|(i, &x)| (i, x as usize)).collect();
-    let l = Coding::from_frequencies(BitsPerFragment(if quad { 2 } else { 1 }), m).code_lengths();
-    *l.values().max().unwrap()
-}
 fn main() {
-    for d in 2..=18 {
-        let f = chain4(d);
-        println!("chain4({d}): syms={} n={} depth={}", f.len(), f.iter().map(|&x| x as u64).sum::<u64>(), depth(&f, true));
+    let t = qwt::HQWT256::<u8>::from(vec![1u8, 2, 3, 1, 1, 1, 7, 7]);
+    match serde_json::to_value(&t) {
+        Ok(j) => println!("{}", j.get("lens").map(|x| x.to_string()).unwrap_or("no lens".into())),
+        Err(e) => println!("ERR {e}"),
     }
-    for d in [2, 3, 5, 10, 20, 24, 31, 32, 33] {
-        let f = chain2(d);
-        println!("chain2({d}): syms={} n={} depth={}", f.len(), f.iter().map(|&x| x as u64).sum::<u64>(), depth(&f, false));
+    let t = qwt::HWT::<u8>::from(vec![1u8, 2, 3, 1, 1, 1, 7, 7]);
+    match serde_json::to_value(&t) {
+        Ok(j) => println!("{}", j.get("lens").map(|x| x.to_string()).unwrap_or("no lens".into())),
+        Err(e) => println!("ERR {e}"),
     }
 }
